@@ -137,6 +137,61 @@ func VerifC19Negotiation() {
 	vReach("end")
 }
 
+// VerifC19History: any sequence of K later server replies - ACKs naming any
+// subset of two capabilities, each plain or with the '-' prefix, and NAKs of any
+// subset - against a plain model: a capability is held exactly when the latest
+// ACK that named it enabled it (a NAK changes nothing), and every reply is
+// answered by exactly one CAP END.
+func VerifC19History() {
+	c1, c2 := vGenCap("cap1"), vGenCap("cap2")
+	vAssume(c1 != c2)
+	uni := []string{c1, c2}
+	cfg := NewConfig("me")
+	cfg.EnableCapabilityNegotiation = true
+	cfg.Capabilites = []string{c1, c2}
+	conn := Client(cfg)
+	conn.out = make(chan string, 32)
+	got := vFeed(conn, ":srv CAP * LS :"+c1+" "+c2)
+	vAssert(len(got) == 1, "requests-exactly-wanted-and-advertised")
+	held := map[string]bool{}
+	K := vParam("K", 2)
+	for e := 0; e < K; e++ {
+		es := string([]byte{byte('0' + e)})
+		nak := vLen("nak"+es, 0, 1) == 1
+		var names []string
+		for i, c := range uni {
+			is := es + string([]byte{byte('a' + i)})
+			hi := 2
+			if nak {
+				hi = 1
+			}
+			switch vLen("mention"+is, 0, hi) {
+			case 1:
+				names = append(names, c)
+				if !nak {
+					held[c] = true
+				}
+			case 2:
+				names = append(names, "-"+c)
+				held[c] = false
+			}
+		}
+		if vLen("swap"+es, 0, 1) == 1 && len(names) == 2 {
+			names[0], names[1] = names[1], names[0]
+		}
+		verb := "ACK"
+		if nak {
+			verb = "NAK"
+		}
+		got = vFeed(conn, ":srv CAP * "+verb+" :"+strings.Join(names, " "))
+		vAssert(len(got) == 1 && got[0] == "CAP END", "end-after-every-reply")
+		for _, c := range uni {
+			vAssert(conn.HasCapability(c) == held[c], "held-iff-latest-ack-enabled")
+		}
+	}
+	vReach("end")
+}
+
 // VerifC19Split: a request too long for one line is split into several CAP REQ
 // lines, each name exactly once, in order, no line over the limit.
 func VerifC19Split() {
